@@ -73,20 +73,63 @@ META = {
     'exhaustive': False,
 }
 
-# (name, lazyUpdate, cacheValues, ncols, foreign key of column 0: None | ('n', T) cascade='null' | ('c', T) cascade=True,
-#  index of the JSONCol column (stored text != shown value) or None, string primary key?)
+# (name, lazyUpdate, cacheValues, ncols, foreign key of column 0 with a cascade policy: None | ('n', T) cascade='null' |
+#  ('c', T) cascade=True, index of the JSONCol column (stored text != shown value) or None, string primary key?)
 CLASSES = [('E', 0, 1, 2, None, 1, 0), ('L', 1, 1, 3, None, 2, 0), ('U', 0, 0, 2, None, None, 0), ('LU', 1, 0, 2, None, None, 0),
            ('RN', 0, 1, 2, ('n', 0), None, 0), ('RL', 1, 1, 2, ('n', 0), None, 0), ('RU', 0, 0, 2, ('n', 0), None, 0),
-           ('RC', 0, 1, 2, ('c', 0), None, 0), ('SK', 0, 1, 2, None, None, 1), ('SL', 1, 1, 2, None, 1, 1)]
+           ('RC', 0, 1, 2, ('c', 0), None, 0), ('SK', 0, 1, 2, None, None, 1), ('SL', 1, 1, 2, None, 1, 1),
+           # two FAMILIES of like-named classes ('Own', 'Pet') in two class registries, with the id types crossed:
+           # Own: string ids / Pet: int ids, key to Own   |   Own: int ids / Pet: string ids, lazy, key to Own
+           ('OA', 0, 1, 1, None, None, 1), ('PA', 0, 1, 2, None, None, 0), ('OB', 0, 1, 1, None, None, 0), ('PB', 1, 1, 2, None, None, 1)]
 PLAIN = ['x', 'y', 'z']
+# plain (cascade=None) foreign keys: class -> referenced class;  FKT: every class whose column 0 is a key
+PLAINFK = {11: 10, 13: 12}
+FKT = dict((k, c[4][1]) for k, c in enumerate(CLASSES) if c[4])
+FKT.update(PLAINFK)
+# python class name and registry of the like-named families
+FAMILY = {10: ('Own', 'ra'), 11: ('Pet', 'ra'), 12: ('Own', 'rb'), 13: ('Pet', 'rb')}
 # python attribute names / database column names per class
 ATTRS = [(['fkID', 'x'] if c[4] else PLAIN[:c[3]]) for c in CLASSES]
 DBN = [(['fk_id', 'x'] if c[4] else PLAIN[:c[3]]) for c in CLASSES]
+for _k in PLAINFK:
+    ATTRS[_k] = ['fkID', 's']
+    DBN[_k] = ['fk_id', 's']
 JOFF = 1000     # model-side tag of the stored representation of a JSONCol value
+# column kinds: int | json (JSONCol) | str (StringCol) | fk (key to an int-id class) | fks (key to a string-id class)
+KINDS = []
+for _k, _c in enumerate(CLASSES):
+    _kinds = ['int'] * _c[3]
+    if _c[5] is not None:
+        _kinds[_c[5]] = 'json'
+    if _k in FKT:
+        _kinds[0] = 'fks' if CLASSES[FKT[_k]][6] else 'fk'
+    KINDS.append(_kinds)
+KINDS[1][1] = 'str'      # L.y   (lazy)
+KINDS[8][1] = 'str'      # SK.y  (eager, string key)
+KINDS[11][1] = 'str'
+KINDS[13][1] = 'str'
+# StringCol values: the abstract int v stands for the text  str(v) + SUF[v % 4]  (per-cent signs, a quote)
+SUF = ['', '%', '%%z', "'s"]
+_re_strval = re.compile(r"^(-?\d+)(.*)$", re.S)
+
+
+def kind(k, c):
+    return KINDS[k][c]
+
+
+def enc_str(v):
+    return '%d%s' % (v, SUF[v % 4])
+
+
+def dec_str(t):
+    m = _re_strval.match(t) if isinstance(t, str) else None
+    if m and SUF[int(m.group(1)) % 4] == m.group(2):
+        return int(m.group(1))
+    return None
 
 
 def jcol(k, c):
-    return CLASSES[k][5] == c
+    return KINDS[k][c] == 'json'
 
 
 def strkey(k):
@@ -143,21 +186,29 @@ def env(do_cache):
     conn = make_conn_class()(':memory:', cache=do_cache)
     classes = []
     from sqlobject import ForeignKey
+    from sqlobject import StringCol
     for kk, (nm, lz, cv, n, fk, jc, sk) in enumerate(CLASSES):
-        name = sqlo.uniq('C05%s%d_' % (nm, int(do_cache)))
+        alias = sqlo.uniq('C05%s%d_' % (nm, int(do_cache)))
+        name = alias
         meta = {'lazyUpdate': bool(lz), 'cacheValues': bool(cv), 'table': 't_%s' % nm.lower()}
         if sk:
             meta['idType'] = str
+        if kk in FAMILY:
+            name = FAMILY[kk][0]
+            meta['registry'] = '%s%d' % (FAMILY[kk][1], int(do_cache))
         attrs = {'_connection': conn, 'sqlmeta': type('sqlmeta', (), meta)}
-        if fk:
-            attrs['fk'] = ForeignKey(classes[fk[1]].__name__, cascade=('null' if fk[0] == 'n' else True), default=None)
-            attrs['x'] = IntCol(default=None)
-        else:
-            for ci, c in enumerate(PLAIN[:n]):
-                attrs[c] = JSONCol(default=None) if ci == jc else IntCol(default=None)
+        for ci in range(n):
+            kd = KINDS[kk][ci]
+            if kd in ('fk', 'fks'):
+                attrs['fk'] = ForeignKey(classes[FKT[kk]].__name__, default=None,
+                                         cascade=({'n': 'null', 'c': True}[fk[0]] if fk else None))
+            else:
+                col = {'int': IntCol, 'json': JSONCol, 'str': StringCol}[kd]
+                attrs[DBN[kk][ci]] = col(default=None)
         attrs['__module__'] = __name__
         cls = type(name, (SQLObject,), attrs)
-        globals()[name] = cls      # picklable by reference
+        cls.__qualname__ = alias
+        globals()[alias] = cls      # picklable by reference (like-named classes get distinct qualified names)
         cls.createTable()
         classes.append(cls)
     e = {'conn': conn, 'classes': classes, 'raw': conn._memoryConn,
@@ -172,32 +223,67 @@ def sv(v):
 
 
 def sv_py(k, c, v):
-    """a value the object SHOWS -> model text; a JSONCol showing its stored text is the tagged value"""
+    """a value the object SHOWS -> model text ('T?…' when it has not the type the column shows; a JSONCol
+    showing its stored text is the tagged value)"""
     if v is None:
         return 'N'
-    if jcol(k, c) and isinstance(v, str):
-        try:
-            return str(int(json.loads(v)) + JOFF)
-        except Exception:
-            return 'S?' + v
+    kd = kind(k, c)
+    if kd == 'json':
+        if isinstance(v, str):
+            try:
+                return str(int(json.loads(v)) + JOFF)
+            except Exception:
+                return 'S?' + v
+    elif kd == 'str':
+        d = dec_str(v)
+        return 'T?%r' % (v,) if d is None else str(d)
+    elif kd == 'fks':
+        return str(int(v)) if (isinstance(v, str) and v.isdigit()) else 'T?%r' % (v,)
     if isinstance(v, bool) or not isinstance(v, int):
         return 'T?%r' % (v,)
     return str(v)
 
 
-def sv_db(k, c, v):
-    """a STORED value (python object from sqlite / _SO_createValues, or SQL literal text) -> model text"""
-    if v is None or v == 'N' or v == 'NULL':
+def sv_dbobj(k, c, v):
+    """a STORED value as a Python object (from sqlite, or kept in _SO_createValues) -> model text"""
+    if v is None:
         return 'N'
-    if jcol(k, c):
-        t = v
-        if isinstance(t, str) and len(t) >= 2 and t[0] == "'" and t[-1] == "'":
-            t = t[1:-1]
+    kd = kind(k, c)
+    if kd == 'json':
         try:
-            return str(int(json.loads(t)) + JOFF)
+            return str(int(json.loads(v)) + JOFF)
         except Exception:
-            return 'S?%s' % (v,)
+            return 'S?%r' % (v,)
+    if kd == 'str':
+        d = dec_str(v)
+        return 'T?%r' % (v,) if d is None else str(d)
+    if kd == 'fks':
+        return str(int(v)) if (isinstance(v, str) and v.isdigit()) else 'T?%r' % (v,)
+    if isinstance(v, bool) or not isinstance(v, int):
+        return 'T?%r' % (v,)
     return str(v)
+
+
+def sv_lit(k, c, t):
+    """a value as an SQL literal in a statement -> model text"""
+    if t in ('N', 'NULL'):
+        return 'N'
+    kd = kind(k, c)
+    quoted = len(t) >= 2 and t[0] == "'" and t[-1] == "'"
+    body = t[1:-1].replace("''", "'") if quoted else t
+    if kd in ('json', 'str', 'fks'):
+        if not quoted:
+            return 'T?' + t
+        if kd == 'json':
+            try:
+                return str(int(json.loads(body)) + JOFF)
+            except Exception:
+                return 'S?' + t
+        if kd == 'str':
+            d = dec_str(body)
+            return 'T?' + t if d is None else str(d)
+        return str(int(body)) if body.isdigit() else 'T?' + t
+    return t if re.match(r'^-?\d+$', t) else 'T?' + t
 
 
 def kvtxt(kvs):
@@ -240,7 +326,7 @@ def canon_stmt(e, q, auto_id=None):
         n = CLASSES[k][3]
         if sorted(d) != sorted(DBN[k]):
             return 'SQL?' + q
-        return 'I %d %s %s' % (k, rid, ','.join('%d=%s' % (i, sv_db(k, i, d[DBN[k][i]])) for i in range(n)))
+        return 'I %d %s %s' % (k, rid, ','.join('%d=%s' % (i, sv_lit(k, i, d[DBN[k][i]])) for i in range(n)))
     m = _re_upd.match(q)
     if m and m.group(1) in tabs:
         k = tabs[m.group(1)]
@@ -249,7 +335,7 @@ def canon_stmt(e, q, auto_id=None):
             nm, v = a.split(' = ')
             if nm not in DBN[k]:
                 return 'SQL?' + q
-            parts.append('%d=%s' % (DBN[k].index(nm), sv_db(k, DBN[k].index(nm), sqlval(v))))
+            parts.append('%d=%s' % (DBN[k].index(nm), sv_lit(k, DBN[k].index(nm), sqlval(v))))
         return 'U %d %s %s' % (k, m.group(3), ','.join(parts))
     m = _re_del.match(q)
     if m and m.group(1) in tabs:
@@ -285,8 +371,11 @@ def parse_update(tok):
     _, k, rid, kv = tok.split(' ')
     d = {}
     for p in kv.split(','):
-        c, v = p.split('=')
-        d[int(c)] = None if v == 'N' else int(v)
+        c, v = p.split('=', 1)
+        try:
+            d[int(c)] = None if v == 'N' else int(v)
+        except ValueError:
+            d[int(c)] = v        # a literal of the wrong kind ('T?…'): equals nothing
     return int(k), int(rid), d
 
 
@@ -325,6 +414,7 @@ class Runner(object):
         self.alloc = []     # handles allocated by each executed op
         self.stats = {}
         self.notes = set()
+        self.iters = []     # lazily consumed selects: (class, iterator) or None when exhausted
         self.blobs = []     # pickled states: (bytes, class, row id, raw python id, attribute snapshot, row at that time)
         self.reset()
 
@@ -358,7 +448,7 @@ class Runner(object):
 
     def rawcanon(self, k, rid):
         r = self.rawstored(k, rid)
-        return 'none' if r is None else ','.join(sv_db(k, c, v) for c, v in enumerate(r))
+        return 'none' if r is None else ','.join(sv_dbobj(k, c, v) for c, v in enumerate(r))
 
     def rawexec(self, sql):
         cur = self.raw.cursor()
@@ -391,8 +481,16 @@ class Runner(object):
         return [canon_stmt(self.e, q, auto_id) for q in stmts]
 
     def pyval(self, v, k=None, c=None):
+        """abstract value of an op -> the Python value handed to / shown by the library"""
+        kd = kind(k, c) if k is not None else 'int'
         if v == 'B':
-            return object() if (k is not None and jcol(k, c)) else 'x'
+            return {'json': object(), 'str': 5, 'fks': None}.get(kd, 'x')
+        if v is None:
+            return None
+        if kd == 'str':
+            return enc_str(v)
+        if kd == 'fks':
+            return str(v)
         return v
 
     def others_on_row(self, k, rid, but=None):
@@ -495,7 +593,7 @@ class Runner(object):
             self.adopt(obj, k, real, 'create %%d %d %d %s' % (k, real, kvreq(kvs)), st, created=True)
             # C16: inserts are immediate (also for lazy classes)
             n = CLASSES[k][3]
-            want = tuple(dict(kvs).get(c) for c in range(n))
+            want = tuple(self.pyval(dict(kvs).get(c), k, c) for c in range(n))
             if self.rawrow(k, real) != want or sum(1 for s in st if s.startswith('I ')) != 1:
                 self.fail('insert-not-immediate', k, 'after the constructor returned the row is %r, expected %r; statements %r'
                           % (self.rawrow(k, real), want, st))
@@ -527,14 +625,125 @@ class Runner(object):
         if out != 'ok':
             return
         for obj in objs:
-            h = self.find(obj)
-            if h is None:
-                self.adopt(obj, k, int(obj.id), 'fetch %%d %d %d 1' % (k, int(obj.id)), [])
+            self.from_select(obj, k)
+
+    def from_select(self, obj, k):
+        """one row of a select came back as `obj`"""
+        h = self.find(obj)
+        if h is None:
+            return self.adopt(obj, k, int(obj.id), 'fetch %%d %d %d 1' % (k, int(obj.id)), [])
+        self.revive(h)
+        self.emit('refresh %d' % h, 'ok', [])
+        if not self.held[h].pend:
+            self.held[h].tainted = False     # a clean instance is reloaded from the select row
+        return h
+
+    # ---- lazily consumed selects: other operations happen between two rows
+    def op_iter(self, k):
+        cls = self.e['classes'][k]
+        out, it, stmts = self.outcome(lambda: iter(cls.select(orderBy='id').lazyIter()))
+        self.emit('selstmt %d' % k, out, self.canon(stmts))
+        if out == 'ok':
+            self.iters.append([k, it, self.next_id(k, 0)])
+
+    def next_id(self, k, after):
+        """the DB-API driver has always fetched ONE row ahead (sqlite3 steps the statement at execute() and after
+        every fetchone()): the row an open iteration will hand out next was read when the previous one was"""
+        cur = self.raw.cursor()
+        cur.execute('SELECT id FROM %s' % tbl(k))
+        ids = sorted(int(r[0]) for r in cur.fetchall())
+        cur.close()
+        later = [i for i in ids if i > after]
+        return later[0] if later else None
+
+    def prefetched(self, k, rid=None):
+        """is row (k, rid) [any row of k when rid is None] sitting in the look-ahead of an open iteration?  Writing it
+        now and continuing the iteration refreshes the instance from the older copy (reported as a finding of the
+        driver look-ahead; the generator keeps out of it so that anything BEYOND one row of look-ahead alarms)"""
+        for it in self.iters:
+            if it is not None and it[0] == k and it[2] is not None and (rid is None or it[2] == rid):
+                return True
+        return False
+
+    def cascade_prefetched(self, k):
+        return any(self.prefetched(k2) for k2 in range(len(CLASSES)) if CLASSES[k2][4] and CLASSES[k2][4][1] == k)
+
+    def op_next(self, i):
+        if i >= len(self.iters) or self.iters[i] is None:
+            return False
+        k, it, _look = self.iters[i]
+        done = []
+
+        def step():
+            try:
+                return next(it)
+            except StopIteration:
+                done.append(1)
+                return None
+        out, obj, stmts = self.outcome(step)
+        st = self.canon(stmts)
+        if out != 'ok' or done or obj is None:
+            self.iters[i] = None
+            self.direct.append(('a step of an iteration sends no statement', '', ';'.join(st)))
+            if out != 'ok':
+                self.notes.add('an iteration step raised %s' % out)
+            return
+        self.from_select(obj, k)
+        self.iters[i][2] = self.next_id(k, int(obj.id))
+        self.direct.append(('a step of an iteration sends no statement', '', ';'.join(st)))
+
+    # ---- the object-valued accessor of a foreign key column
+    def op_readfk(self, h):
+        hd = self.need(h)
+        if hd is None or hd.k not in FKT:
+            return False
+        k, t = hd.k, FKT[hd.k]
+        cv = CLASSES[k][2]
+        out, val, stmts = self.outcome(lambda: hd.obj.fk)
+        st = self.canon(stmts)
+        mine = [x for x in st if x.split(' ')[1:2] == [str(k)]]
+        theirs = [x for x in st if x not in mine]
+        missing = object()
+        if cv:
+            seen = hd.obj.__dict__.get('_SO_val_fkID', missing)
+        else:
+            r = self.rawstored(k, hd.rid)
+            seen = missing if (r is None or hd.obj.sqlmeta._obsolete) else r[0]
+        rstream = 'attribute read (value, statements): model = main.py'
+        if seen is missing:
+            # the key itself could not be read
+            self.emit('read %d 0' % h, out if out != 'ok' else 'val ?', st, rstream)
+            return
+        self.emit('read %d 0' % h, 'val ' + sv_py(k, 0, seen), mine, rstream)
+        exp = ('skip',) if hd.tainted else self.expected(hd, 0)
+        if seen is None:
+            if out != 'ok' or val is not None:
+                self.fail('fk-object-vs-key', k, 'the key of instance %d is None, .fk gave %r / %s' % (h, val, out))
+            return
+        tid = int(seen)
+        if out == 'ok':
+            h2 = self.find(val)
+            if h2 is None:
+                self.adopt(val, t, int(val.id), 'fetch %%d %d %d 0' % (t, tid), theirs)
             else:
-                self.revive(h)
-                self.emit('refresh %d' % h, 'ok', [])
-                if not self.held[h].pend:
-                    self.held[h].tainted = False     # a clean instance is reloaded from the select row
+                self.revive(h2)
+                self.direct.append(('get() of a held instance sends no statement', '', ';'.join(theirs)))
+            got = val.id
+        else:
+            self.emit('fetch %d %d %d 0' % (self.nexth, t, tid), out, theirs)
+            got = ('raise', out)
+        # C05 / C16 oracle: the referenced OBJECT is the one the shown key (pending value on a lazy class) names
+        if exp[0] == 'val':
+            want = exp[1]
+            if want is None:
+                self.fail('fk-object-vs-key', k, 'the key of instance %d should be None, .fk gave %r' % (h, got))
+            elif self.rawrow(t, int(want)) is None:
+                # (a cached instance of a row deleted behind the library's back may still be handed out)
+                if got != ('raise', 'NotFound') and got != want:
+                    self.fail('fk-object-vs-key', k, 'instance %d references the missing row %r, .fk gave %r' % (h, want, got))
+            elif got != want:
+                self.fail('fk-object-vs-key', k, 'instance %d: key (database/pending) is %r, .fk gave the object with id %r'
+                          % (h, want, got))
 
     def bulk(self, k, ids, fn):
         """deleteBy / deleteMany: rows vanish, their instances are not told"""
@@ -549,7 +758,9 @@ class Runner(object):
                     self.held[h2].tainted = True
 
     def op_deleteby(self, k, c, v):
-        if c >= CLASSES[k][3] or jcol(k, c):
+        if self.prefetched(k):
+            return False
+        if c >= CLASSES[k][3] or kind(k, c) not in ('int', 'fk'):
             return False
         cur = self.raw.cursor()
         cur.execute('SELECT id FROM %s WHERE %s %s ORDER BY id' % (tbl(k), DBN[k][c], 'IS NULL' if v is None else '= %d' % v))
@@ -561,6 +772,8 @@ class Runner(object):
         self.bulk(k, ids, lambda: cls.deleteBy(**{ATTRS[k][c]: v}))
 
     def op_deletemany(self, k, rid):
+        if self.prefetched(k):
+            return False
         cls = self.e['classes'][k]
         ids = [rid] if self.rawrow(k, rid) is not None else []
         self.bulk(k, ids, lambda: cls.deleteMany(cls.q.id == idval(k, rid)))
@@ -575,7 +788,7 @@ class Runner(object):
         if lz and c in hd.pend:
             if not cv:
                 return ('skip',)     # lazy + uncached shows the stored value (noted, not alarmed)
-            return ('val', hd.pend[c])
+            return ('val', self.pyval(hd.pend[c], k, c))
         row = self.rawrow(k, hd.rid)
         if row is None:
             return ('gone',)
@@ -618,6 +831,8 @@ class Runner(object):
         hd = self.need(h)
         if hd is None or c >= CLASSES[hd.k][3]:
             return False
+        if self.prefetched(hd.k, hd.rid):
+            return False
         before = self.rawrow(hd.k, hd.rid)
         if hd.dead or hd.destroyed or before is None:
             hd.tainted = True     # writing through a dead instance is outside the property
@@ -637,6 +852,8 @@ class Runner(object):
     def op_set(self, h, kvs, fail):
         hd = self.need(h)
         if hd is None or any(c >= CLASSES[hd.k][3] for c, _ in kvs):
+            return False
+        if self.prefetched(hd.k, hd.rid):
             return False
         before = self.rawrow(hd.k, hd.rid)
         if hd.dead or hd.destroyed or before is None:
@@ -671,7 +888,7 @@ class Runner(object):
         if len(ups) != 1 or parse_update(ups[0]) != (hd.k, hd.rid, want_db):
             self.fail('flush-not-exactly-pending', hd.k, '%s sent %r, the pending assignments were %r' % (what, ups, want))
         if before is not None:
-            exp = tuple(want.get(c, before[c]) for c in range(len(before)))
+            exp = tuple((self.pyval(want[c], hd.k, c) if c in want else before[c]) for c in range(len(before)))
             if self.rawrow(hd.k, hd.rid) != exp:
                 self.fail('flush-row-not-old-plus-pending', hd.k, '%s: row %r -> %r, pending %r'
                           % (what, before, self.rawrow(hd.k, hd.rid), want))
@@ -685,6 +902,8 @@ class Runner(object):
         hd = self.need(h)
         if hd is None:
             return False
+        if self.prefetched(hd.k, hd.rid):
+            return False
         before = self.rawrow(hd.k, hd.rid)
         self.conn.fail_update = bool(fail)
         out, _, stmts = self.outcome(lambda: hd.obj.syncUpdate())
@@ -697,6 +916,8 @@ class Runner(object):
     def op_sync(self, h, fail):
         hd = self.need(h)
         if hd is None:
+            return False
+        if self.prefetched(hd.k, hd.rid):
             return False
         before = self.rawrow(hd.k, hd.rid)
         self.conn.fail_update = bool(fail)
@@ -742,14 +963,21 @@ class Runner(object):
         cls = self.e['classes'][k]
         out, _, stmts = self.outcome(lambda: cls.sqlmeta.expireAll())
         self.emit('expireallcls %d' % k, out, self.canon(stmts))
+        # (the connection keeps ONE cache per class NAME: like-named classes of other registries go with it;
+        #  reported as a finding of its own, mirrored here)
+        group = [k2 for k2 in FAMILY if k in FAMILY and FAMILY[k2][0] == FAMILY[k][0] and k2 != k]
+        for k2 in group:
+            self.lines.append(('expireallcls %d' % k2, 'ok |  | u=0', 'op outcome, statements, UPDATE count: model = main.py'))
         if out == 'ok':
             for hd in self.held.values():
-                if hd.incache and hd.k == k:
+                if hd.incache and (hd.k == k or hd.k in group):
                     self.expired_now(hd)
 
     def op_destroy(self, h):
         hd = self.need(h)
         if hd is None:
+            return False
+        if self.prefetched(hd.k, hd.rid) or self.cascade_prefetched(hd.k):
             return False
         k, rid = hd.k, hd.rid
         # the dependents loop, as the harness expects it from the raw tables: per dependent class (creation
@@ -849,6 +1077,8 @@ class Runner(object):
         hd = self.need(h)
         if hd is None:
             return False
+        if self.prefetched(hd.k, hd.rid):
+            return False
         before = self.rawrow(hd.k, hd.rid)
         self.conn.fail_update = bool(fail)
         out, blob, stmts = self.outcome(lambda: pickle.dumps(hd.obj))
@@ -861,7 +1091,7 @@ class Runner(object):
                 self.fail('pickle-left-pending', hd.k, 'after pickling dirty=%r pending=%r' % (hd.obj.sqlmeta.dirty, hd.obj._SO_createValues))
             d = hd.obj.__dict__
             snap = [(c, d['_SO_val_' + ATTRS[hd.k][c]]) for c in range(CLASSES[hd.k][3]) if ('_SO_val_' + ATTRS[hd.k][c]) in d]
-            self.blobs.append((blob, hd.k, hd.rid, hd.obj.id, snap, self.rawrow(hd.k, hd.rid)))
+            self.blobs.append((blob, hd.k, hd.rid, hd.obj.id, snap, None if hd.tainted else self.rawrow(hd.k, hd.rid)))
 
     def op_unpickle(self, b):
         """pickle.loads of an earlier pickled state (works when no instance of the row is in the cache)"""
@@ -878,7 +1108,7 @@ class Runner(object):
         h = self.adopt(obj, k, rid, line.strip(), st)
         hd = self.held[h]
         # the copy shows what the row held when it was pickled; nothing was ever assigned to it
-        hd.tainted = (self.rawrow(k, rid) is None) or (self.rawrow(k, rid) != row_then)
+        hd.tainted = (row_then is None) or (self.rawrow(k, rid) != row_then)
 
     def op_drop(self, h):
         hd = self.need(h)
@@ -893,10 +1123,19 @@ class Runner(object):
     def sqllit(self, k, c, v):
         if v is None:
             return 'NULL'
-        return "'%s'" % json.dumps(v) if jcol(k, c) else str(v)
+        kd = kind(k, c)
+        if kd == 'json':
+            return "'%s'" % json.dumps(v)
+        if kd == 'str':
+            return "'%s'" % enc_str(v).replace("'", "''")
+        if kd == 'fks':
+            return "'%d'" % v
+        return str(v)
 
     def op_oobupdate(self, k, rid, c, v):
         if c >= CLASSES[k][3]:
+            return False
+        if self.prefetched(k, rid):
             return False
         self.rawexec('UPDATE %s SET %s = %s WHERE id = %s' % (tbl(k), DBN[k][c], self.sqllit(k, c, v), idlit(k, rid)))
         self.lines.append(('oobupdate %d %d %d %s' % (k, rid, c, sv(enc_model(k, c, v))), 'ok |  | u=0',
@@ -905,6 +1144,8 @@ class Runner(object):
             self.taint_all(k, rid)
 
     def op_oobdelete(self, k, rid):
+        if self.prefetched(k, rid):
+            return False
         self.rawexec('DELETE FROM %s WHERE id = %s' % (tbl(k), idlit(k, rid)))
         self.lines.append(('oobdelete %d %d' % (k, rid), 'ok |  | u=0', 'op outcome, statements, UPDATE count: model = main.py'))
         self.taint_all(k, rid)
@@ -933,7 +1174,7 @@ class Runner(object):
             cols.append(sv_py(hd.k, c, d[key]) if key in d else '-')
         pend = d.get('_SO_createValues', {})
         pk = sorted((ATTRS[hd.k].index(nm), v) for nm, v in pend.items())
-        ptxt = ','.join('%d=%s' % (c, sv_db(hd.k, c, v)) for c, v in pk) if pk else '-'
+        ptxt = ','.join('%d=%s' % (c, sv_dbobj(hd.k, c, v)) for c, v in pk) if pk else '-'
         incache = self.conn.cache.tryGet(o.id, type(o)) is o
         return 'cls=%d id=%d cached=%s expired=%d dirty=%d pending=%s obsolete=%d incache=%d' % (
             hd.k, int(o.id), ','.join(cols), int(bool(o.sqlmeta.expired)), int(bool(o.sqlmeta.dirty)), ptxt,
@@ -987,9 +1228,9 @@ FKVALS = [None, 1, 1, 2, 2, 3, 4, 5]
 
 
 def gen_val(rng, pbad=0.08, k=None, c=None):
-    if rng.random() < pbad:
+    if rng.random() < pbad and not (k is not None and kind(k, c) == 'fks'):
         return 'B'
-    if k is not None and c == 0 and CLASSES[k][4]:
+    if k is not None and c == 0 and k in FKT:
         return rng.choice(FKVALS)
     return rng.choice(VALS)
 
@@ -1016,8 +1257,8 @@ def gen_op(rng, r, weights):
             n = CLASSES[k][3]
             cols = [c for c in range(n) if rng.random() < 0.8]
             kvs = [[c, gen_val(rng, 0.05, k, c)] for c in cols]
-            if CLASSES[k][4]:
-                targets = [r.held[h2].rid for h2 in live if r.held[h2].k == CLASSES[k][4][1]]
+            if k in FKT:
+                targets = [r.held[h2].rid for h2 in live if r.held[h2].k == FKT[k]]
                 if targets and rng.random() < 0.75:
                     kvs = [kv for kv in kvs if kv[0] != 0] + [[0, rng.choice(targets)]]
             rid = None if (rng.random() < 0.5 and not strkey(k)) else rng.randint(1, MAXID)
@@ -1036,7 +1277,9 @@ def gen_op(rng, r, weights):
             return ['get', k, rng.randint(1, MAXID), 1 if rng.random() < 0.2 else 0]
         if name == 'deleteby':
             k = pick_k()
-            cs = [c for c in range(CLASSES[k][3]) if not jcol(k, c)]
+            cs = [c for c in range(CLASSES[k][3]) if kind(k, c) in ('int', 'fk')]
+            if not cs:
+                continue
             c = rng.choice(cs)
             v = gen_val(rng, 0, k, c)
             if v is None:
@@ -1052,6 +1295,21 @@ def gen_op(rng, r, weights):
             if not r.blobs:
                 continue
             return ['unpickle', rng.randrange(len(r.blobs))]
+        if name == 'iter':
+            if sum(1 for x in r.iters if x is not None) >= 2:
+                name = 'next'
+            else:
+                return ['iter', pick_k()]
+        if name == 'next':
+            opened = [i for i, x in enumerate(r.iters) if x is not None]
+            if not opened:
+                continue
+            return ['next', rng.choice(opened)]
+        if name == 'readfk':
+            hs = [h2 for h2 in live if r.held[h2].k in FKT]
+            if not hs:
+                continue
+            return ['readfk', rng.choice(hs)]
         if name == 'expireallcls':
             return ['expireallcls', pick_k()]
         if name == 'oobupdate':
@@ -1092,8 +1350,8 @@ def gen_op(rng, r, weights):
 OPS_C05 = (['create'] * 10 + ['get'] * 7 + ['select'] * 6 + ['read'] * 8 + ['setattr'] * 14 + ['set'] * 9 +
            ['syncupdate'] * 4 + ['sync'] * 7 + ['expire'] * 8 + ['expireall'] * 2 + ['expireallcls'] * 1 +
            ['destroy'] * 4 + ['pickle'] * 2 + ['drop'] * 1 + ['oobupdate'] * 4 + ['oobdelete'] * 2 + ['oobinsert'] * 1 +
-           ['deleteby'] * 1 + ['deletemany'] * 2 + ['unpickle'] * 2)
-W_C05 = {'ops': OPS_C05, 'classes': [0, 0, 0, 0, 1, 1, 2, 2, 3, 4, 4, 5, 5, 6, 7, 7, 8, 8, 9]}
+           ['deleteby'] * 1 + ['deletemany'] * 2 + ['unpickle'] * 2 + ['iter'] * 3 + ['next'] * 9 + ['readfk'] * 4)
+W_C05 = {'ops': OPS_C05, 'classes': [0, 0, 0, 0, 1, 1, 2, 2, 3, 4, 4, 5, 5, 6, 7, 7, 8, 8, 9, 10, 11, 11, 12, 13, 13]}
 
 
 def interesting(ops):
